@@ -7,6 +7,7 @@ import (
 	"fmt"
 	"strings"
 
+	"github.com/biogo/biogo/feat"
 	"github.com/biogo/biogo/io/featio/bed"
 	"github.com/biogo/biogo/io/featio/gff"
 	"verif/h/enum"
@@ -21,10 +22,49 @@ type kase struct {
 	Gff    []featgen.Gff `json:"gff,omitempty"`
 	Header bool          `json:"header,omitempty"`
 	SeqW   int           `json:"seqwidth,omitempty"`
+	// Steps: a BED file whose i-th line was written at width Steps[i]; one reader reads it with its
+	// exported BedType field set to Steps[i] before the i-th Read
+	Steps []int `json:"steps,omitempty"`
 }
 
 func check(c *enum.Ctx, k kase) {
 	fail := func(class, f string, a ...interface{}) { c.Fail(k.Format+"/"+class, k, "%s", fmt.Sprintf(f, a...)) }
+	if k.Format == "bed" && len(k.Steps) > 0 {
+		var text []byte
+		for i, w := range k.Steps {
+			t, err := featgen.WriteBed(k.Bed[i:i+1], 12, w)
+			if err != nil {
+				fail("write-error", "writing record %d at width %d: %v", i, w, err)
+				return
+			}
+			text = append(text, t...)
+		}
+		c.Guard("bed/read-panic", k, func() {
+			r, err := bed.NewReader(bytes.NewReader(text), k.Steps[0])
+			if err != nil {
+				fail("reader", "%v", err)
+				return
+			}
+			var fs []feat.Feature
+			for i, w := range k.Steps {
+				r.BedType = w
+				f, err := r.Read()
+				if err != nil {
+					fail("stepped-width/read-error", "record %d read with BedType set to %d (widths %v): %v (text %q)", i, w, k.Steps, err, text)
+					return
+				}
+				fs = append(fs, f)
+			}
+			for i, f := range fs {
+				w := k.Steps[i]
+				if got, want := featgen.BedString(f, w), featgen.BedString(k.Bed[i].Make(w), w); got != want {
+					fail("stepped-width/round-trip", "record %d read with BedType set to %d (widths %v) reads back as %s, want %s", i, w, k.Steps, got, want)
+					return
+				}
+			}
+		})
+		return
+	}
 	if k.Format == "bed" {
 		var text []byte
 		var err error
@@ -119,7 +159,7 @@ func check(c *enum.Ctx, k kase) {
 }
 
 func run(c *enum.Ctx) {
-	c.Rule("BED: product of chrom {c, 'chr 1'} x (start,end) pairs over {-1,0,1,7,MaxInt64,MinInt64} x name {n,'a b','x#'} x score {-1,0,7,MaxInt64} x strand 3 x thick pairs x rgb {zero,(1,2,3),(0,0,0) opaque,(255,255,255)} x blocks 1..3, for record types 3/4/5/6/12 x every writer width <= type (reader at the same width), single records and pairs; GFF: seqname/source/feature with and without inner space x start {0,1,9,-3} x length {1,5,big} x score {nil,0,-1.5,0.1,1e-300,MaxFloat64,+Inf,-Inf} x strand 3 x frame 4 x attribute lists {none,[ID x],[Tag_1 'v w',t2 ''],three incl. digits in tags} x comments {'', 'c d'} x header on/off; sequence-region lines; inline DNA/RNA/protein sequences of length 1..5 and 61 at widths 1,2,60; mixed files; non-trivial = every case (each writes at least one record)")
+	c.Rule("BED: product of chrom {c, 'chr 1'} x (start,end) pairs over {-1,0,1,7,MaxInt64,MinInt64} x name {n,'a b','x#'} x score {-1,0,7,MaxInt64} x strand 3 x thick pairs x rgb {zero,(1,2,3),(0,0,0) opaque,(255,255,255)} x blocks 1..3, for record types 3/4/5/6/12 x every writer width <= type (reader at the same width), single records and pairs; one reader whose exported BedType field is stepped from line to line (5 width sequences); GFF: seqname/source/feature with and without inner space x start {0,1,9,-3} x length {1,5,big} x score {nil,0,-1.5,0.1,1e-300,MaxFloat64,+Inf,-Inf} x strand 3 x frame 4 x attribute lists {none,[ID x],[Tag_1 'v w',t2 ''],three incl. digits in tags} x comments {'', 'c d'} x header on/off; sequence-region lines; inline DNA/RNA/protein sequences of length 1..5 and 61 at widths 1,2,60; mixed files; non-trivial = every case (each writes at least one record)")
 	c.Assume("text fields are non-empty, tab-free, trimmed and do not start with '#'; BED12 has at least one block; GFF features have positive length; attribute values contain no ';'; colours are zero or opaque; NaN scores are excluded; nil and empty attribute lists are the same thing")
 	const maxI, minI = int(^uint(0) >> 1), -int(^uint(0)>>1) - 1
 	var cases []kase
@@ -163,6 +203,16 @@ func run(c *enum.Ctx) {
 				}
 			}
 			cases = append(cases, kase{Format: "bed", Typ: typ, Width: w})
+		}
+	}
+	// one reader, its exported BedType field stepped from line to line
+	for _, steps := range [][]int{{12, 6, 5, 4, 3}, {3, 4, 5, 6, 12}, {3, 12, 3}, {6, 6, 4}, {5, 3, 12, 4}} {
+		for off := 0; off < len(beds); off += 37 {
+			var recs []featgen.Bed
+			for i := range steps {
+				recs = append(recs, beds[(off+i*5)%len(beds)])
+			}
+			cases = append(cases, kase{Format: "bed", Bed: recs, Typ: 12, Width: 12, Steps: steps})
 		}
 	}
 	// lines around and beyond the 4096-byte buffer of bufio: long chrom / name, many blocks; a short
